@@ -191,13 +191,13 @@ class Deadline(BaseException):
 
 
 HANGS = [0]
-MAX_HANGS = 12
+MAX_HANGS = 6
 
 
 def with_deadline(seconds, fn, *a, **kw):
     """Deadline with confirmation: a first alarm is not believed (a full garbage collection over a large heap or
     a cold import can burn seconds of CPU inside an innocent call); the library's memos are cleared, garbage is
-    collected and the call is repeated with four times the budget.  Only a second alarm is a hang."""
+    collected and the call is repeated with twice the budget.  Only a second alarm is a hang."""
     try:
         return _with_deadline(seconds, False, fn, *a, **kw)
     except Deadline:
@@ -207,7 +207,7 @@ def with_deadline(seconds, fn, *a, **kw):
         except Exception:
             pass
         gc.collect()
-        return _with_deadline(4 * seconds, True, fn, *a, **kw)
+        return _with_deadline(2 * seconds, True, fn, *a, **kw)
 
 
 def _with_deadline(seconds, count, fn, *a, **kw):
